@@ -70,7 +70,9 @@ func W7Units(sink Sink) {
 // (grid==1: the full 1,024 x 1,024 grid).
 func W7Surrogates(grid int, sink Sink) {
 	c := &h.Case{Family: "W7s"}
-	c.DescFn = func(c *h.Case) string { return fmt.Sprintf("surrogate %#x partner kind %d (%#x)", c.P[0], c.P[1], c.P[2]) }
+	c.DescFn = func(c *h.Case) string {
+		return fmt.Sprintf("surrogate %#x partner kind %d (%#x)", c.P[0], c.P[1], c.P[2])
+	}
 	buf := make([]byte, 0, 64)
 	emit := func(a, kind, b int) {
 		c.Input = buf
@@ -301,7 +303,9 @@ func W7Triples(sink Sink) {
 func W7PositionsInDocs(maxLen int, sink Sink) {
 	wrap := [][2]string{{"[", "]"}, {`[0,`, `,1]`}, {`{"k":`, "}"}, {`{"a":0,"k":`, `,"z":1}`}, {"{", ":1}"}, {`{"a":0,`, ":1}"}, {`[{"a":[`, "]}]"}}
 	c := &h.Case{Family: "W7pd"}
-	c.DescFn = func(c *h.Case) string { return fmt.Sprintf("position-sweep string #%d wrapped as %q..%q", c.P[0], wrap[c.P[1]][0], wrap[c.P[1]][1]) }
+	c.DescFn = func(c *h.Case) string {
+		return fmt.Sprintf("position-sweep string #%d wrapped as %q..%q", c.P[0], wrap[c.P[1]][0], wrap[c.P[1]][1])
+	}
 	buf := make([]byte, 0, 256)
 	n := 0
 	W7Positions(maxLen, func(cs *h.Case) {
